@@ -46,4 +46,72 @@ META = {
                 "conformance is established for whole-page transfers.  Two concurrent operations of the same kind on one descriptor are not "
                 "driven (the context documents one registration per descriptor).",
     },
+    'C01': {
+        "text": "Every sender tree of depth <=2 over 27 adaptors x leaf modes (inline / deferred / completing from inside its stop callback) x outcomes x stop-event positions is connected and started on the real code and every completion order of the leaves is enumerated; signal counters on the outer and every inner receiver decide 'exactly one completion, not before start, none after'. The concurrent part runs two completer threads and a stopper against when_all / when_any / stop_when / let_value compositions, cancellable operations, async_scope close races, an event loop and spawn_future under every interleaving up to the preemption bound; deadlock / quiescent-but-unsignalled is reported by the scheduler.",
+        "technique": 'exhaustive bounded enumeration of programs / operation sequences / fault positions on the real code against a lock-step reference model (stateless model checking, sequential harnesses) + stateless model checking of the implementation: exhaustive preemption-bounded schedule enumeration under a controlled scheduler (HB-prefix caching)',
+    },
+    'C02': {
+        "text": 'A tracked payload stored inside the source operation is put under every adaptor (copy/move from a destroyed payload, double destruction, leak are counted); the expression sweeps run with a counting allocator, poisoned freed operation states (ASan) and a fault sweep in which each callable in turn throws; the concurrent harnesses free every heap operation from its receiver so that any touch after completion is an ASan report on some explored schedule.',
+        "technique": 'exhaustive bounded enumeration of programs / operation sequences / fault positions on the real code against a lock-step reference model (stateless model checking, sequential harnesses) + stateless model checking of the implementation: exhaustive preemption-bounded schedule enumeration under a controlled scheduler (HB-prefix caching)',
+    },
+    'C04': {
+        "text": "For every sender tree the reference model states which leaves must observe the stop request and when; the real leaves record what they observed through their receivers' stop tokens, and the number of live stop-callback registrations is checked at the outer completion. Stop is injected at every event index (before start, between any two leaf completions, from inside a leaf's own callback). Concurrent stop-vs-completion races run under the scheduler for the composing adaptors, stop_on_request, detach_on_cancel, spawn_future and async_scope.",
+        "technique": 'exhaustive bounded enumeration of programs / operation sequences / fault positions on the real code against a lock-step reference model (stateless model checking, sequential harnesses) + stateless model checking of the implementation: exhaustive preemption-bounded schedule enumeration under a controlled scheduler (HB-prefix caching)',
+    },
+    'C05': {
+        "text": 'The outer result (channel, value, error identity) of every depth-1/2 sender tree, for every leaf outcome and completion order, is compared with a reference evaluator written from doc/api_reference.md (run in lock step with explicit stop sources, LIFO callback order and re-entrancy); a fault sweep makes each user callable throw in turn; payload_adaptors checks the value/error objects themselves arrive unmodified.',
+        "technique": 'exhaustive bounded enumeration of programs / operation sequences / fault positions on the real code against a lock-step reference model (stateless model checking, sequential harnesses)',
+    },
+    'C06': {
+        "text": 'manual_event_loop, single_thread_context, static_thread_pool (1-2 threads, 1-2 producers), new_thread_context, timed_single_thread_context, trampoline_scheduler and any_scheduler are driven by 1-2 producer threads racing run()/stop()/request_stop under every interleaving up to the bound; per-item counters decide exactly-once, thread identity, FIFO (judged linearizability-style on start() call/return order), no lost item (deadlock detector) and that stop()/join returns.',
+        "technique": 'stateless model checking of the implementation: exhaustive preemption-bounded schedule enumeration under a controlled scheduler (HB-prefix caching)',
+    },
+    'C07': {
+        "text": 'timed_single_thread_context and thread_unsafe_event_loop run on the virtual clock: timers from small due-time alphabets submitted by 1-2 threads, cancelled before start / at once / at the due time / never; never-early, due order between timers whose submission is ordered, prompt cancellation, exactly-once and no retained reference (heap operations freed at completion, ASan) are checked on every interleaving; time_point/duration arithmetic is enumerated over boundary operands against 128-bit reference arithmetic. The epoll and io_uring timers are covered by C14.',
+        "technique": 'stateless model checking of the implementation: exhaustive preemption-bounded schedule enumeration under a controlled scheduler (HB-prefix caching)',
+    },
+    'C08': {
+        "text": 'v0, v1 and v2 async_scope: spawning threads race join()/cleanup()/complete()/request_stop under every interleaving up to the bound; the monitor counts operations outstanding when the join sender completes (must be 0), that join completes at all, that work nested after close is rejected without running, and that unconsumed nest senders release their reference.',
+        "technique": 'stateless model checking of the implementation: exhaustive preemption-bounded schedule enumeration under a controlled scheduler (HB-prefix caching)',
+    },
+    'C09': {
+        "text": "spawn_future (v1/v2 scopes) and spawn_detached: the spawned operation's completion (value / error / done), the future being awaited, dropped, or stopped, and scope closing are raced under every interleaving up to the bound; the future's result must equal what the operation produced, shared state and stop callbacks are released exactly once (ASan on heap state), a throwing allocator/connect is enumerated, and spawn_detached terminates only on error.",
+        "technique": 'stateless model checking of the implementation: exhaustive preemption-bounded schedule enumeration under a controlled scheduler (HB-prefix caching); fault enumeration',
+    },
+    'C10': {
+        "text": 'A script-interpreting coroutine (steps: await ready/suspended sender with value/error/done, nested task, at_coroutine_exit cleanup, schedule, throw, co_return) is enumerated over all scripts up to the depth, with and without a deferred scheduler and stop requests at every suspension; a reference interpreter predicts the result, the order of cleanups vs. locals, and that every frame is destroyed exactly once; coro_return_throws covers co_return values whose construction throws.',
+        "technique": 'exhaustive bounded enumeration of programs / operation sequences / fault positions on the real code against a lock-step reference model (stateless model checking, sequential harnesses)',
+    },
+    'C11': {
+        "text": "For every sender in a typed corpus (all factories and adaptors, nested once) the statically declared sends_done, blocking() and is_always_scheduler_affine are compared with what the real operation does for every leaf outcome (a 'never done' that completes done, an 'always_inline' that completes later, an 'affine' that completes on another context are violations); expr_ctx tags execution contexts and checks the context every completion runs on through via/on/typed_via/with_scheduler_affinity; events, async_mutex and task<> are checked for completing on the receiver's scheduler under the thread scheduler.",
+        "technique": 'exhaustive bounded enumeration of programs / operation sequences / fault positions on the real code against a lock-step reference model (stateless model checking, sequential harnesses) + stateless model checking of the implementation: exhaustive preemption-bounded schedule enumeration under a controlled scheduler (HB-prefix caching)',
+    },
+    'C12': {
+        "text": 'Every adaptor is placed at every position of depth-1/2 trees; each leaf (and each schedule() operation) records the answers its receiver gives to get_stop_token / get_scheduler / get_allocator / a user-defined query, and the reference model says which of them the adaptor may replace. The scheduler answer is an object whose move constructor empties the source, so forwarding it twice is visible.',
+        "technique": 'exhaustive bounded enumeration of programs / operation sequences / fault positions on the real code against a lock-step reference model (stateless model checking, sequential harnesses)',
+    },
+    'C13': {
+        "text": "All stream pipelines of depth <=2 over 12 adaptors and sources of length 0..3 (with error positions) are run with every timing of stop / trigger relative to in-flight next() operations; the delivered sequence and the reduce/for_each result are compared with list semantics; a monitor checks cleanup() of every started stream runs exactly once, only after the outstanding next() completed, and before the consumer's result.",
+        "technique": 'exhaustive bounded enumeration of programs / operation sequences / fault positions on the real code against a lock-step reference model (stateless model checking, sequential harnesses)',
+    },
+    'C15': {
+        "text": 'v1 and v2 async_mutex: 2-3 lockers (some cancellable, some on an event loop) under every interleaving up to the bound; a critical-section monitor decides mutual exclusion, FIFO among ordered requests, no leaked lock (mutex free at the end, every waiter completed exactly once), and the scheduler reports deadlock.',
+        "technique": 'stateless model checking of the implementation: exhaustive preemption-bounded schedule enumeration under a controlled scheduler (HB-prefix caching)',
+    },
+    'C16': {
+        "text": 'v1/v2 async_manual_reset_event, async_auto_reset_event and async_pass: setters/resetters, waiters (cancellable), callers and acceptors race under every interleaving up to the bound against a sequential specification of each primitive (no lost wake-up, no wake without set, one accept per call, done only if stopped).',
+        "technique": 'stateless model checking of the implementation: exhaustive preemption-bounded schedule enumeration under a controlled scheduler (HB-prefix caching)',
+    },
+    'C17': {
+        "text": 'find_if over all n in [0,1100] x every match position x sequential/parallel policy against std::find_if, with an address-in-range check on every predicate call; bulk_schedule / bulk_transform / bulk_join / indexed_for with per-index counters (each index exactly once, none after stop, no overlap).',
+        "technique": 'exhaustive input enumeration on the real code (bounded)',
+    },
+    'C18': {
+        "text": 'any_unique, any_object (throwing and nothrow-move payloads, inline and heap storage) are driven through every operation sequence up to depth 3 (4 thorough) over construct / move / assign-from-wrapper / assign-from-value / swap / reset / destroy with a ledger of payload constructions and destructions, alignment and storage checks; any_sender_of, any_scheduler, type_erased_stream and inplace_stop_token_adapter are checked differentially: the same expression with and without the wrapper must produce the same trace.',
+        "technique": 'exhaustive bounded enumeration of programs / operation sequences / fault positions on the real code against a lock-step reference model (stateless model checking, sequential harnesses) (operation-sequence enumeration, differential oracle)',
+    },
+    'C19': {
+        "text": 'cancellable<>, create_basic_sender, create_raw_sender-style operations, detach_on_cancel, stop_on_request and canary: a completing thread, a stop-requesting thread and start() race under every interleaving up to the bound (up to 4/6 preemptions for canary); exactly one of completion/cancellation wins, stop() is called at most once, nothing touches the operation after the winner destroyed it (ASan), start() returning after a concurrent completion is covered explicitly.',
+        "technique": 'stateless model checking of the implementation: exhaustive preemption-bounded schedule enumeration under a controlled scheduler (HB-prefix caching)',
+    },
 }
